@@ -38,6 +38,7 @@ import (
 	"github.com/nspcc-dev/neo-go/pkg/vm/emit"
 	"github.com/nspcc-dev/neo-go/pkg/vm/opcode"
 	"github.com/nspcc-dev/neo-go/pkg/vm/stackitem"
+	"go.uber.org/zap"
 )
 
 func init() {
@@ -51,6 +52,7 @@ type c16Env struct {
 	c       *c16Chain
 	P, Z    *neotest.Contract
 	T       *neotest.Contract            // executes CALLT: 96 method tokens (6 final methods of P x 16 token flags), wildcard permission
+	CB      [4]*neotest.Contract         // callback contracts: onNEP17Payment/_deploy try capability k (0 none, 1 put, 2 notify, 3 call)
 	TP      map[string]*neotest.Contract // CALLT callers with restricted permissions (key: JSON of the permission)
 	pub     *keys.PublicKey
 	single  neotest.SingleSigner
@@ -223,6 +225,11 @@ func c16Setup() (env *c16Env, err error) {
 		kb, _ := json.Marshal(tp)
 		env.TP[string(kb)] = ct
 	}
+	for k := 0; k < 4; k++ {
+		if env.CB[k], err = c.deploy(env.cbSpec(fmt.Sprintf("CB%d", k), k)); err != nil {
+			return nil, err
+		}
+	}
 	e := c.e
 	neo, gas := env.nat[nativenames.Neo], env.nat[nativenames.Gas]
 	own := c.owner.ScriptHash()
@@ -232,6 +239,10 @@ func c16Setup() (env *c16Env, err error) {
 	e.NewInvoker(gas, c.owner).Invoke(c.t, true, "transfer", own, env.P.Hash, 1000_0000_0000, nil)
 	e.NewInvoker(gas, c.owner).Invoke(c.t, true, "transfer", own, env.single.ScriptHash(), 1000_0000_0000, nil)
 	e.NewInvoker(neo, c.owner).Invoke(c.t, true, "transfer", own, env.P.Hash, 1000, nil)
+	for k := 0; k < 4; k++ {
+		e.NewInvoker(neo, c.owner).Invoke(c.t, true, "transfer", own, env.CB[k].Hash, 100, nil)
+		e.NewInvoker(gas, c.owner).Invoke(c.t, true, "transfer", own, env.CB[k].Hash, 100_0000_0000, nil)
+	}
 	e.NewInvoker(neo, c.owner, env.single).Invoke(c.t, true, "registerCandidate", env.pub.Bytes())
 	e.NewInvoker(neo, c.owner).Invoke(c.t, true, "vote", own, env.pub.Bytes())
 	pol := env.nat[nativenames.Policy]
@@ -567,6 +578,192 @@ var c16FinalOrder = []int{10, 11, 12, 13, 14, 15}
 
 // permissions of the restricted CALLT callers (h0 = the proxy P holding the final methods, h1 = another contract)
 var c16TokPerms = []c16Perm{{"h0", []string{"lput"}}, {"*", []string{"note", "slput"}}, {"h1", nil}, {"h0", []string{}}, {"h0", nil}}
+
+// ---------- native -> contract callbacks ----------
+
+// a contract whose onNEP17Payment and _deploy try capability k; also a forwarder so that it can be the caller
+func (env *c16Env) cbSpec(name string, k int) c16ContractSpec {
+	probe := c16Code(func(w *io.BinWriter) {
+		emit.Opcodes(w, opcode.CLEAR)
+		switch k {
+		case 1:
+			emit.Bytes(w, []byte("v"))
+			emit.Bytes(w, []byte("cb"))
+			emit.Syscall(w, interopnames.SystemStorageLocalPut)
+		case 2:
+			emit.Opcodes(w, opcode.NEWARRAY0)
+			emit.String(w, "Cb")
+			emit.Syscall(w, interopnames.SystemRuntimeNotify)
+		case 3:
+			emit.AppCall(w, env.Z.Hash, "nop", callflag.All)
+			emit.Opcodes(w, opcode.CLEAR)
+		}
+		emit.Opcodes(w, opcode.RET)
+	})
+	return c16ContractSpec{Name: name, Perms: []manifest.Permission{*manifest.NewPermission(manifest.PermissionWildcard)},
+		Events: []manifest.Event{{Name: "Cb", Parameters: []manifest.Parameter{}}},
+		Methods: []c16Method{
+			{Name: "fwd", NParams: 4, Body: c16SyscallBody(interopnames.SystemContractCall, false)},
+			{Name: "onNEP17Payment", NParams: 3, Void: true, Body: probe},
+			{Name: "_deploy", NParams: 2, Void: true, Body: probe},
+		}}
+}
+
+type c16CbIn struct {
+	Path  string `json:"path"`  // gas-transfer neo-transfer vote block destroy deploy update notary
+	Flags int    `json:"flags"` // flags the native method is called with (= flags of its frame)
+	Probe int    `json:"probe"` // 0 none, 1 Local.Put, 2 Notify, 3 System.Contract.Call
+}
+
+var c16CbPaths = []string{"gas-transfer", "neo-transfer", "vote", "block", "destroy", "deploy", "update", "notary"}
+
+type c16CbObs struct {
+	State     string `json:"state"`
+	Fault     string `json:"fault,omitempty"`
+	Ran       bool   `json:"ran"`
+	CbFlags   int    `json:"cb_flags"`
+	Effect    bool   `json:"effect"`
+	NatFlags  int    `json:"native_frame_flags"`
+	NatFrames int    `json:"native_frames"`
+}
+
+func (env *c16Env) runCallback(co *caseOut, in c16CbIn) {
+	if in.Probe < 0 || in.Probe > 3 {
+		return
+	}
+	cb := env.CB[in.Probe]
+	own := env.c.owner.ScriptHash()
+	gas, neo := env.nat[nativenames.Gas], env.nat[nativenames.Neo]
+	mgmt, pol := env.nat[nativenames.Management], env.nat[nativenames.Policy]
+	var ct, m string
+	var nh, cbHash util.Uint160
+	var args []any
+	via := false
+	cbHash = cb.Hash
+	switch in.Path {
+	case "gas-transfer":
+		ct, m, nh, args = "GasToken", "transfer", gas, []any{own, cb.Hash, 1, nil}
+	case "neo-transfer":
+		ct, m, nh, args = "NeoToken", "transfer", neo, []any{own, cb.Hash, 1, nil}
+	case "vote":
+		ct, m, nh, args, via = "NeoToken", "vote", neo, []any{cb.Hash, env.pub.Bytes()}, true
+	case "block":
+		ct, m, nh, args = "PolicyContract", "blockAccount", pol, []any{cb.Hash}
+	case "destroy":
+		if in.Probe == 1 {
+			return // destroy removes the contract's storage after the callback: the put cannot be observed afterwards
+		}
+		ct, m, nh, args, via = "ContractManagement", "destroy", mgmt, []any{}, true
+	case "deploy":
+		d := c16Build(own, env.cbSpec(fmt.Sprintf("DP%d", in.Probe), in.Probe))
+		nb, _ := d.NEF.Bytes()
+		mb, _ := json.Marshal(d.Manifest)
+		ct, m, nh, args, cbHash = "ContractManagement", "deploy", mgmt, []any{nb, mb}, d.Hash
+	case "update":
+		mb, _ := json.Marshal(cb.Manifest)
+		ct, m, nh, args, via = "ContractManagement", "update", mgmt, []any{nil, mb}, true
+	case "notary":
+		if in.Probe != 0 {
+			return
+		}
+		cbHash = env.nat[nativenames.Notary]
+		ct, m, nh, args = "GasToken", "transfer", gas, []any{own, cbHash, 2_0000_0000, []any{own, int64(env.c.bc.BlockHeight() + 100)}}
+	default:
+		co.violation("callback", "harness: unknown path "+in.Path, in, nil)
+		return
+	}
+	script := c16Code(func(w *io.BinWriter) {
+		if via {
+			c16EmitCall(w, cb.Hash, "fwd", 15, nh, m, in.Flags, args)
+		} else {
+			c16EmitCall(w, nh, m, in.Flags, args...)
+		}
+	})
+	natDepth := 2
+	if via {
+		natDepth = 3
+	}
+	tx := transaction.New(script, 0)
+	tx.Signers = env.signers
+	tx.ValidUntilBlock = env.c.bc.BlockHeight() + 1
+	ic, err := env.c.bc.GetTestVM(trigger.Application, tx, nil)
+	if err != nil {
+		panic(err)
+	}
+	ic.Log = zap.NewNop()
+	ic.VM.SetGasLimit(5000_0000_0000)
+	var o c16CbObs
+	o.CbFlags, o.NatFlags = -1, -1
+	zran := false
+	ic.VM.SetOnExecHook(func(sh util.Uint160, off int, op opcode.Opcode) {
+		d := len(ic.VM.Istack())
+		if d == natDepth && sh.Equals(nh) && o.NatFlags < 0 {
+			o.NatFlags = int(ic.VM.Context().GetCallFlags())
+		}
+		if d > natDepth && sh.Equals(cbHash) && !o.Ran {
+			o.Ran = true
+			o.CbFlags = int(ic.VM.Context().GetCallFlags())
+		}
+		if o.Ran && sh.Equals(env.Z.Hash) {
+			zran = true
+		}
+	})
+	ic.VM.LoadWithFlags(script, callflag.All)
+	var runErr error
+	if p := catch(func() { runErr = ic.Exec() }); p != "" {
+		o.State, o.Fault = "PANIC", p
+	} else {
+		o.State = ic.VM.State().String()
+		if runErr != nil {
+			o.Fault = runErr.Error()
+		}
+	}
+	if len(o.Fault) > 160 {
+		o.Fault = o.Fault[:160]
+	}
+	switch in.Probe {
+	case 1:
+		b := ic.DAO.Store.GetBatch()
+		for _, kv := range b.Put {
+			if len(kv.Key) >= 2 && string(kv.Key[len(kv.Key)-2:]) == "cb" && string(kv.Value) == "v" {
+				o.Effect = true
+			}
+		}
+	case 2:
+		for _, n := range ic.Notifications {
+			if n.Name == "Cb" && n.ScriptHash.Equals(cbHash) {
+				o.Effect = true
+			}
+		}
+	case 3:
+		o.Effect = zran
+	}
+	if o.NatFlags < 0 {
+		co.violation("callback", "harness: the native frame was not reached: "+o.Fault, in, o)
+		return
+	}
+	completed := o.State == "HALT"
+	cbf := max(o.CbFlags, 0)
+	if o.Ran && o.CbFlags&^in.Flags != 0 {
+		co.violation("callback", fmt.Sprintf("the callback ran with flags %04b, not within the native frame's flags %04b (flags must only shrink)", o.CbFlags, in.Flags), in, o)
+	}
+	bit := []int{0, 2, 8, 4}[in.Probe]
+	if o.Effect && in.Flags&bit == 0 {
+		co.violation("callback", fmt.Sprintf("the callback could use capability %04b although the native's frame has flags %04b", bit, in.Flags), in, o)
+	}
+	arity := len(args)
+	tag := in.Path
+	switch {
+	case !o.Ran:
+		tag += "/no-callback"
+	case completed:
+		tag += fmt.Sprintf("/ran-%04b", o.CbFlags)
+	default:
+		tag += fmt.Sprintf("/ran-%04b-fault", o.CbFlags)
+	}
+	co.add("callback", tag, o.Ran, in, o, fmt.Sprintf("CCallback %s%%string %s%%string %d %d %d %s %d %s %s", coqStr(ct), coqStr(m), arity, in.Flags, in.Probe,
+		coqBool(o.Ran), cbf, coqBool(completed), coqBool(o.Effect)))
+}
 
 // ---------- CALLT ----------
 
@@ -1319,6 +1516,10 @@ func runC16(cmd string, args []string) error {
 				var in c16PermIn
 				json.Unmarshal(x.Input, &in)
 				env.runPermCall(co, in)
+			case "callback":
+				var in c16CbIn
+				json.Unmarshal(x.Input, &in)
+				env.runCallback(co, in)
 			case "callt":
 				var in c16CallTIn
 				json.Unmarshal(x.Input, &in)
@@ -1420,6 +1621,16 @@ func runC16(cmd string, args []string) error {
 		for _, tp := range c16TokPerms {
 			for _, fin := range c16FinalOrder {
 				env.runCallTPerm(co, c16PermIn{Ops: []c16Perm{tp}, Method: c16Finals[fin]})
+			}
+		}
+	}
+	// native -> contract callbacks: every path x 4 capability probes x 16 flag sets of the native's frame
+	if ex && want("callback") {
+		for _, path := range c16CbPaths {
+			for probe := 0; probe < 4; probe++ {
+				for fl := 0; fl < 16; fl++ {
+					env.runCallback(co, c16CbIn{Path: path, Flags: fl, Probe: probe})
+				}
 			}
 		}
 	}
@@ -1570,7 +1781,7 @@ func runC16(cmd string, args []string) error {
 	co.extra["exhaustive"] = ex && *only == ""
 	if ex {
 		co.extra["x_universe"] = "sys: all system calls of the table x 16 flag sets (block-trigger calls: the node's flag set and the refused ones); native: all methods (latest hard-fork set) x 16 flag sets x {called by the entry script, called by a contract}; " +
-			"chain: all chains of length 0 and 1 (16 x 3 hop kinds x 16 x 5 finals); callt: 16 frame flag sets x 16 token flag sets x 6 final methods through the CALLT opcode, and 5 restricted-permission CALLT callers x 6 methods; perm1: 6 descriptors x 5 method lists x 12 callees x 3 methods; permitem: the 30 permissions' real stack items; permstored: 30 permissions x 12 callees x 4 methods x 3 stored forms; permcall: 30 single-permission deployed callers x 3 deployed callees x 4 methods, before and after a node restart over the same LevelDB; " +
+			"callback: 8 native->contract callback paths (GAS/NEO transfer, vote, blockAccount, destroy, deploy, update, Notary deposit) x 4 capability probes x 16 flag sets; chain: all chains of length 0 and 1 (16 x 3 hop kinds x 16 x 5 finals); callt: 16 frame flag sets x 16 token flag sets x 6 final methods through the CALLT opcode, and 5 restricted-permission CALLT callers x 6 methods; perm1: 6 descriptors x 5 method lists x 12 callees x 3 methods; permitem: the 30 permissions' real stack items; permstored: 30 permissions x 12 callees x 4 methods x 3 stored forms; permcall: 30 single-permission deployed callers x 3 deployed callees x 4 methods, before and after a node restart over the same LevelDB; " +
 			"thorough adds chains of length 2 over 6 flag sets and all pairs of permissions with distinct descriptors"
 	}
 	co.extra["x_witnessed"] = c16Witnessed(co)
